@@ -13,7 +13,6 @@ c.raises('exceptions.ItemNotFound', when="unique_identifier is None", name="no-i
          ensures="str(raised) == NOT_FOUND_TEXT.format(unique_identifier)")
 c.raises('exceptions.ItemNotFound',
          ensures="str(raised) == NOT_FOUND_TEXT.format(unique_identifier)")
-c.raises('exc.MultipleResultsFound')
 c.raises('exceptions.InvalidField')
 c.ensures("result in self._object_map.values()", name="a-stored-class")
 c.trace("reads-only",
@@ -44,7 +43,7 @@ c.raises('exceptions.ItemNotFound', when="uid is None", name="no-identifier",
 c.raises('exceptions.ItemNotFound', ensures="str(raised) == NOT_FOUND_TEXT.format(uid)")
 c.raises('exceptions.PermissionDenied', ensures="str(raised) == NOT_FOUND_TEXT.format(uid)",
          name="denied-as-not-found")
-c.raises(('exc.MultipleResultsFound', 'exc.NoResultFound', 'exceptions.InvalidField'))
+c.raises(('exc.NoResultFound', 'exceptions.InvalidField'))
 c.ensures("granted(self._operation_policies, result.operation_policy_name, self._client_identity, "
           "result._owner, result.object_type, operation)", name="returned-only-if-granted", assume=False)
 c.trace("denial-changes-and-discloses-nothing", t_denial_discloses_nothing)
@@ -83,7 +82,9 @@ from contracts.handler_common import (t_no_effect_before_raise, t_single_transac
                                       make_access_predicate, make_state_predicate)
 
 UID = ('lazyopt', ('obj', 'kmip.core.attributes.UniqueIdentifier', {'value': 'str'}))
-KMIP_ERRORS = ('exceptions.KmipError', 'exc.MultipleResultsFound', 'exc.NoResultFound')
+# NoResultFound: only from the second look-up of the access-controlled choke point (a row that vanished
+# between its two queries - impossible under the engine lock, C10); nothing else of SQLAlchemy is allowed
+KMIP_ERRORS = ('exceptions.KmipError', 'exc.NoResultFound')
 
 
 def _emit_access(c):
@@ -218,8 +219,11 @@ c.trust("used at call sites as: returns the attribute dictionary (name -> decode
 c = contract(E + "_set_attributes_on_managed_object").props('C13', 'C15')
 c.args(self=ENGINE, managed_object='opaque', attributes='opaque')
 c.raises(('exceptions.InvalidField',))
-c.trust("attribute setter loop not yet under its own contract: sets attributes on the (not yet stored) "
-        "object or raises InvalidField")
+c.trust("used at call sites as: sets attributes on the (not yet stored) object or raises InvalidField, without "
+        "touching the store.  Exactly that is proved against the body, for a dictionary with any number of "
+        "entries, by the variant contract _set_attributes_on_managed_object#body (contracts/c_template.py), "
+        "which in turn uses _set_attribute_on_managed_object by its proved contract; only the typing of the "
+        "dictionary entries is assumed")
 
 
 def make_creator_predicates(n_objects):
@@ -302,7 +306,8 @@ c = contract("kmip.core.messages.payloads.register.RegisterResponsePayload.__ini
 c.args(self='opaque', unique_identifier='opaque', template_attribute='none')
 c.ensures("self._unique_identifier == unique_identifier", name="identifier-as-given")
 c.modifies("self._unique_identifier", "self._template_attribute")
-c.trust("response payload constructor: type-checks and stores the identifier string (codec: C01)")
+c.trust("response payload constructor: type-checks and stores the identifier string (codec: C01); proved against "
+        "the constructor body for every string by the variant contract __init__#body (contracts/c_response_ctors.py)")
 
 c = contract(E + "_process_register").props('C03', 'C07', 'C08', 'C09', 'C13')
 c.args(self=ENGINE, payload=('payload', PL + "register.RegisterRequestPayload",
@@ -316,3 +321,23 @@ c.trace("owner-is-the-requester", t_own)
 c.trace("no-effect-before-raise", t_no_effect_before_raise)
 c.trace("single-transaction", t_single_transaction)
 c.modifies("self._id_placeholder")
+
+
+def t_specific_attributes_win(ev, outcome, exc, path):
+    """C05 (KMIP template precedence): a common template attribute is added to a key's attribute set
+    only when that set does not already have the attribute; the key-specific value is never replaced."""
+    import z3
+    for e in ev:
+        if e[0] != 'dict.update':
+            continue
+        if not e[4]:
+            return ("an attribute dictionary is updated in bulk: an attribute given specifically for a key can be "
+                    "replaced by the common one")
+        for (k, v, absent) in e[4]:
+            if absent is None or not (z3.is_true(z3.simplify(absent)) or path.is_valid(absent)):
+                return "attribute %r is written into a key's attribute set although the key's own template may already define it" % (k,)
+    return True
+
+
+contract(E + "_process_create_key_pair").props('C05').trace("key-specific-attributes-take-precedence", t_specific_attributes_win)
+contract(E + "_process_create_key_pair").scope('trace.key-specific', 'C05')
